@@ -7,7 +7,9 @@ pub mod cancel;
 pub mod chan;
 pub mod condvar;
 pub mod cqueue;
+pub mod local;
 pub mod mutex;
+pub mod panicf;
 pub mod park;
 pub mod rwlock;
 pub mod scope;
@@ -34,6 +36,8 @@ pub const FAMILIES: &[Family] = &[
     Family { name: "park", runtime: true, max_steps: 300_000, run: park::run },
     Family { name: "scope", runtime: true, max_steps: 300_000, run: scope::run },
     Family { name: "cqueue", runtime: true, max_steps: 300_000, run: cqueue::run },
+    Family { name: "panic", runtime: true, max_steps: 400_000, run: panicf::run },
+    Family { name: "local", runtime: true, max_steps: 400_000, run: local::run },
     Family { name: "spawn", runtime: true, max_steps: 400_000, run: spawn::run },
 ];
 
@@ -65,6 +69,20 @@ fn chan_c07(g: &GenCfg) -> BoxedStrategy<Case> {
 }
 
 pub const PROPS: &[Prop] = &[
+    Prop {
+        id: "C15",
+        quick: 6000,
+        thorough: 200_000,
+        rule: "local family: three coroutine_local! keys holding drop-counted values with interior mutability; 2-10 coroutines run in waves of 1-3 on a pool of 1-2 stacks (each wave is joined before the next, so stacks are recycled) plus 0-2 threads using the same keys; every coroutine starts with a probing blocking call (fresh Blocker parked for 1 h and unparked, coroutine::park_timeout(1h) and unparked, sleep, or none), then get/set/yield/sleep steps, and ends normally, by a panic, cancelled while parked, or with a park_timeout / Blocker park that expires as its last action; generated schedule. Non-trivial = at least one pre-emption AND >= 2 (coroutine, key) pairs used AND a stack was reused after an abnormal end. Distinct = distinct hash of (program, config, schedule).",
+        units: &[Unit { fam: "local", label: "local", share: 1, strategy: local::strategy }],
+    },
+    Prop {
+        id: "C13",
+        quick: 6000,
+        thorough: 200_000,
+        rule: "panic family: 3-12 coroutines on a pool of capacity 1-8 (mostly 1-2: stack reuse) with bodies of yield/sleep/Mutex sections/RwLock read and write sections that end in a value or in a panic outside any lock, while holding the Mutex, while holding the RwLock write guard, inside a scoped child, or inside a select arm; optional canceller; 0-4 later coroutines spawned after the first wave was joined; generated schedule. Non-trivial = a panic happened AND at least one pre-emption AND (later coroutines ran afterwards OR more coroutines than pooled stacks). Distinct = distinct hash of (program, config, schedule).",
+        units: &[Unit { fam: "panic", label: "panic", share: 1, strategy: panicf::strategy }],
+    },
     Prop {
         id: "C16",
         quick: 6000,
